@@ -3,6 +3,20 @@
           mx toy <strict|ignore|replace> < cases
                                  -> "DONE <len> <cap>" | "DECODEERR <byte_idx> <malformed_len>" | "CBERR"
                                     | "MODELPANIC" | "MODELFUEL"
+          mx model <mode> [<mode> ...] < cases    decode_model (Model/Decoders.v) under the trap <mode>
+          mx spec  <mode> [<mode> ...] < cases    decode_spec  (Spec/EncodingSpec.v)
+                                 -> per mode, TAB separated:
+                                    "TEXT <cp.cp.cp>" | "DECODEERR <byte_idx> <b.b.b>" | "CBERR"
+                                    | "MODELPANIC" | "MODELFUEL" | "ABNORMAL"
+                                    followed, for the callback modes, by " obs=<n>:<len>,<after>,<rest>,<cap>,<delta>;..."
+                                    (one entry per callback invocation, the same rendering as hx_c18; the
+                                    specification has no capacity: <cap> is "-")
+             modes: strict | ignore | replace
+                    | obs-ignore     callback: continue
+                    | obs-replace    callback: push U+FFFD, continue
+                    | obs-shrink<K>  callback: output.shrink_to(output.len() + K), continue
+                    | obs-break      callback: break with an empty message
+                    | obs-breakmsg   callback: break with a message
    Case line = space-separated decimal bytes (empty line = empty input). *)
 open Model
 
@@ -29,6 +43,97 @@ let toy which line =
   | Panicked _ -> "MODELPANIC"
   | OutOfFuel -> "MODELFUEL"
 
+let dots l = String.concat "." (List.map (fun x -> string_of_int (int_of_n x)) l)
+
+let rec drop k l = if k <= 0 then l else match l with [] -> [] | _ :: t -> drop (k - 1) t
+let rec take k l = if k <= 0 then [] else match l with [] -> [] | x :: t -> x :: take (k - 1) t
+let rec is_prefix p l = match p, l with [] , _ -> true | x :: p', y :: l' -> x = y && is_prefix p' l' | _ :: _, [] -> false
+
+(* the log of callback invocations: what hx_c18 prints for its obs-* modes *)
+let log : string list ref = ref []
+let prev : n list ref = ref []
+let note ml af rest text cap =
+  let delta = if is_prefix !prev text then dots (drop (List.length !prev) text) else "!" ^ dots text in
+  log := Printf.sprintf "%d,%d,%d,%s,%s" (int_of_n ml) (int_of_n af) (List.length rest) cap delta :: !log
+let obs_suffix () =
+  let l = List.rev !log in
+  Printf.sprintf " obs=%d:%s" (List.length l) (String.concat ";" l)
+
+type action = Ignore_ | Replace_ | Shrink of int | Break of bool
+
+let action_of mode =
+  match mode with
+  | "obs-ignore" -> Some Ignore_
+  | "obs-replace" -> Some Replace_
+  | "obs-break" -> Some (Break true)
+  | "obs-breakmsg" -> Some (Break false)
+  | _ ->
+      let p = "obs-shrink" in
+      let lp = String.length p in
+      if String.length mode > lp && String.sub mode 0 lp = p then Some (Shrink (int_of_string (String.sub mode lp (String.length mode - lp))))
+      else None
+
+(* the callbacks of hx_c18 on the model's String = (text, capacity) *)
+let model_cb act ml af rest (text, cap) =
+  note ml af rest text (string_of_int (int_of_n cap));
+  match act with
+  | Ignore_ -> prev := text; XCbContinue (text, cap)
+  | Replace_ ->
+      let t2 = text @ [n_of_int 65533] in
+      prev := t2;
+      (* String::push of a 3-byte character: reserve(3) *)
+      XCbContinue (t2, reserve (text_len text) cap (n_of_int 3))
+  | Shrink k ->
+      prev := text;
+      (* Vec::shrink_to(len + k): capacity = max(len, len + k) if that is smaller *)
+      let want = int_of_n (text_len text) + k in
+      XCbContinue (text, if int_of_n cap > want then n_of_int want else cap)
+  | Break e -> prev := text; XCbBreak e
+
+let spec_cb act ml af rest text =
+  note ml af rest text "-";
+  match act with
+  | Ignore_ | Shrink _ -> prev := text; TCbContinue text
+  | Replace_ -> let t2 = text @ [n_of_int 65533] in prev := t2; TCbContinue t2
+  | Break e -> prev := text; TCbBreak e
+
+let run_model mode bytes =
+  log := []; prev := [];
+  let trap, is_cb =
+    match mode with
+    | "strict" -> XStrict, false
+    | "ignore" -> XIgnore, false
+    | "replace" -> XReplace, false
+    | _ -> (match action_of mode with Some a -> XCall (model_cb a), true | None -> failwith ("bad mode " ^ mode)) in
+  let r =
+    match decode_model trap bytes with
+    | XDone (t, _) -> "TEXT " ^ dots t
+    | XDecodeError (i, m) -> Printf.sprintf "DECODEERR %d %s" (int_of_n i) (dots (take (int_of_n m) (drop (int_of_n i) bytes)))
+    | XCallbackError -> "CBERR"
+    | XPanicked _ -> "MODELPANIC"
+    | XOutOfFuel -> "MODELFUEL" in
+  if is_cb then r ^ obs_suffix () else r
+
+let run_spec mode bytes =
+  log := []; prev := [];
+  let trap, is_cb =
+    match mode with
+    | "strict" -> SStrict, false
+    | "ignore" -> SIgnore, false
+    | "replace" -> SReplace, false
+    | _ -> (match action_of mode with Some a -> SCall (spec_cb a), true | None -> failwith ("bad mode " ^ mode)) in
+  let r =
+    match decode_spec trap bytes with
+    | DText t -> "TEXT " ^ dots t
+    | DError (i, b) -> Printf.sprintf "DECODEERR %d %s" (int_of_n i) (dots b)
+    | DCallbackError -> "CBERR"
+    | DAbnormal -> "ABNORMAL" in
+  if is_cb then r ^ obs_suffix () else r
+
+let multi run modes line =
+  let bytes = decode_case line in
+  String.concat "\t" (List.map (fun m -> try run m bytes with e -> "MODELEXN " ^ Printexc.to_string e) modes)
+
 let () =
   let args = Array.to_list Sys.argv |> List.tl in
   let f =
@@ -37,7 +142,9 @@ let () =
     | ["toy"; "strict"] -> toy 0
     | ["toy"; "ignore"] -> toy 1
     | ["toy"; "replace"] -> toy 2
-    | _ -> prerr_endline "usage: mx detect | toy <strict|ignore|replace>"; exit 2
+    | "model" :: (_ :: _ as modes) -> multi run_model modes
+    | "spec" :: (_ :: _ as modes) -> multi run_spec modes
+    | _ -> prerr_endline "usage: mx detect | toy <strict|ignore|replace> | model <mode>... | spec <mode>..."; exit 2
   in
   let out = Buffer.create (1 lsl 16) in
   (try
